@@ -19,13 +19,15 @@ CONSTANTS
   EpochBeforeResume = %(ebr)s
   HalfBroken = %(half)s
   HandlerCloses = %(hcl)s
+  MaxConflicts = %(conflicts)d
+  ConflictFatal = %(cfatal)s
   CloseJoinsMain = %(cjm)s
 %(view)s
 INVARIANTS %(invs)s
 %(constraint)s
 CHECK_DEADLOCK FALSE
 """
-INVS = "TokenPerDial NoStreamDetached CallersSurvive NotificationsOnce NoPanic NoDialAfterClose NoCallerParkedWhenClosed NoSupervisorParkedWhenClosed SilentAfterDisconnect NoSelfJoin"
+INVS = "TokenPerDial NoStreamDetached CallersSurvive NotificationsOnce NoPanic NoDialAfterClose NoCallerParkedWhenClosed NoSupervisorParkedWhenClosed SilentAfterDisconnect NoSelfJoin ConflictNeverFatal"
 NG = 17  # StreamNotFound
 
 
@@ -38,11 +40,11 @@ def q(xs):
 
 
 def write_cfg(name, streams=("S1", "S2"), callers=("P1",), faults=1, dialfails=1, resumeng=1, fixed=True, close=True, view=True,
-              invs=INVS, gen=False, epoch_before_resume=True, half=False, handler_closes=False, close_joins_main=False):
+              invs=INVS, gen=False, epoch_before_resume=True, half=False, handler_closes=False, close_joins_main=False, conflicts=0, conflict_fatal=False):
     with open(os.path.join(SPEC, name), "w") as f:
         f.write(CFG % dict(streams=q(streams), callers=q(callers), faults=faults, dialfails=dialfails, resumeng=resumeng,
                            epoch=b(fixed), hook=b(fixed), guard=b(fixed), close=b(close), view="VIEW View" if view else "",
-                           invs=invs, constraint="CONSTRAINT GenPrint" if gen else "", ebr=b(epoch_before_resume), half=b(half), hcl=b(handler_closes), cjm=b(close_joins_main)))
+                           invs=invs, constraint="CONSTRAINT GenPrint" if gen else "", ebr=b(epoch_before_resume), half=b(half), hcl=b(handler_closes), cjm=b(close_joins_main), conflicts=conflicts, cfatal=b(conflict_fatal)))
     return name
 
 
@@ -286,6 +288,23 @@ def resume_overlap(tag):
                       {"a": "join", "obj": "P1"}, {"a": "sleep", "ms": 300}]
             steps += probes(ss) + teardown(ss)
             scs.append({"id": "%s/resumeOverlap/%s/%s/d%d" % (tag, "+".join(ss), kind[:2], delay), "kind": "iscp", "conn": conn, "steps": steps})
+    return scs
+
+
+def resume_conflict(tag):
+    """the broker answers the first resume request(s) of a stream with ResumeRequestConflict (18: it has not noticed the death of the old
+    connection yet - what a fast redial meets) and accepts the next attempt: the stream resumes under its original id / alias and keeps
+    working; nothing is reported closed."""
+    scs = []
+    for ss, kind in ((("S1",), "UpstreamResumeRequest"), (("S2",), "DownstreamResumeRequest"), (("S1", "S2"), "DownstreamResumeRequest"),
+                     (("S1", "S2"), "UpstreamResumeRequest")):
+        for n in (1, 2):
+            conn = {"pingMs": [100, 100], "dialDelayMs": 0}
+            steps = prelude(ss, conn) + [{"a": "rule", "rule": {"on": kind, "do": "codes", "codes": [18] * n + [1]}},
+                                         {"a": "cut"}, {"a": "await", "ev": "Reconnected", "n": 1, "ms": 4000, "must": True},
+                                         {"a": "sleep", "ms": 400 + 300 * n}]
+            steps += probes(ss) + teardown(ss)
+            scs.append({"id": "%s/resumeConflict/%s/%s/%d" % (tag, "+".join(ss), kind[:2], n), "kind": "iscp", "conn": conn, "steps": steps})
     return scs
 
 
